@@ -935,6 +935,17 @@ void reset_destruct_object_limits() {
   restrict_destruct = NULL;
 }
 
+/* the re-entrancy guards of load_object() and destruct_object() as part of an error context */
+void save_object_limits (int *load_depth, object_t **restricted) {
+  *load_depth = num_objects_this_thread;
+  *restricted = restrict_destruct;
+}
+
+void restore_object_limits (int load_depth, object_t *restricted) {
+  num_objects_this_thread = load_depth;
+  restrict_destruct = restricted;
+}
+
 #ifdef NEOLITH_VERIF
 /* verification accessors (read-only) */
 int neolith_verif_command_giver_stack_depth (void) {
